@@ -781,7 +781,7 @@ async fn run_case(case: &Case, ctx: &mut Ctx) -> String {
                 }
             }
         }
-    } else if let Consumer::Drop(_) | Consumer::PollDrop(_) = case.consumer {
+    } else if obs.fin == "dropped" {
         // 4. early drop: the producer is at most two pages ahead and fetches at most one more
         //    (one page more if the extra poll of `pdrop` swallowed an empty page)
         let k = obs.delivered.len();
